@@ -16,6 +16,19 @@ prop("C13", "E-SEQ + E-STATE + all-pairs",
      "Every string of <=7 (thorough 8) bytes over {0 1 9 - . e E + x} is fed to NewNumber and judged by the JSON number grammar; all ordered pairs of the grammar-valid strings of length <=5 (thorough 6) and a shift grid up to 10^+-4999 are compared with exact rational arithmetic (Cmp, Equal, four predicates, String, LengthOfFractionalPart).",
      "Trusts math/big and regexp. Exponents beyond +-4999 are a resource question handled under C02.")
 
+prop("C18", "E-SEQ",
+     "bounded exhaustive enumeration of regex-schema texts, reference delimiter rule + Go regexp",
+     "Every string of <=6 (thorough 7) bytes over the 17-byte alphabet {/ \\ a ( ) [ ] * + ? . | { } 1 ^ $} and the empty text is given to regex.New; acceptance is compared with a 15-line delimiter reference plus regexp.Compile, rejections must be positioned diagnostics, and for accepted texts Len, Example (matched by the pattern), AST, OpenAPI pattern and the behaviour as user type @r against 8 instance strings are checked.",
+     "Trusts Go regexp for validity and matching. Example-matches is demanded only for patterns satisfiable by a string of <=3 characters.")
+prop("C19", "E-OPS",
+     "explicit-state BFS over (container private state, reference dict) pairs + exhaustive operation sequences up to a depth bound",
+     "For RuleASTNodes, ASTNodes, Constraints and StringSet the real methods are driven through every operation (Set, Update, Delete of present and absent keys, Filter with 6 predicates, Map; Add/NewStringSet) from every reachable state until the state graph closes, and through every sequence of <=5 (thorough 6) operations; after each step all observables are compared with an insertion-ordered dictionary.",
+     "Keys {a,b,c}, values {1,2}; callbacks do not re-enter the container; MarshalJSON of ischema.Constraints (integer keys) is outside the claim.")
+prop("C20", "E-SEQ + finite enumeration",
+     "complete enumeration of the type vocabulary + bounded exhaustive enumeration of literal texts against the scanner's classifier",
+     "All 18x18 SchemaType pairs (reflexive, symmetric, documented families), IsValidType on every documented name and every edit-distance-1 variant, token-type agreement of schema and JSON types, and GuessSchemaType on every token string of <=6 (thorough 7) tokens over a 15-token literal alphabet compared with the schema scanner's own classification (24 repetitions each).",
+     "Vocabulary = constants of type.go; map-order independence is decided structurally by the instrumented build (C09).")
+
 ORDER = ["C%02d" % i for i in range(1, 21)]
 
 def main():
